@@ -183,6 +183,8 @@ pub(super) fn start_background_workers(fsync_schedule: FsyncSchedule) -> Arc<mps
 
                     // Perform batched deletions now that mmaps/fds are dropped
                     for path in delete_pending.drain() {
+                        #[cfg(walrus_verif)]
+                        let _ = crate::wal::verif::io_event("remove", &path, 0, 0);
                         match fs::remove_file(&path) {
                             Ok(_) => debug_print!("[reclaim] deleted file {}", path),
                             Err(e) => {
